@@ -1617,6 +1617,20 @@ pub fn corpus_triggered() -> Vec<(&'static str, Prog, Trigger, usize)> {
         let t1 = (vec![], vec![vec![20], vec![30, 0, 0, 0, 0], vec![15, 0, 1], vec![21], vec![7, 1], vec![25, 4]]);
         out.push((name, Prog { g0, ncells: 1, nobj: 2, threads: vec![t0, t1] }, Trigger { watch: 0, site: 1, nth: 9, other: 1, steps: 4 }, 64));
     }
+    // the weak count goes 1 -> 0 (a try_dealloc is deferred) between the load of increment_weak (site 103) and its
+    // fetch_add (site 105): the token for the pending try_dealloc is owed because of what the FETCH_ADD observed, not
+    // the load (C03; seed C03/6a).  Thread 0 destructs the object, takes a WeakSnapshot from its Weak, drops the Weak
+    // and calls counted(); thread 1 drops the last other Weak inside the window.
+    {
+        let t0 = (
+            vec![(1u8, 1usize), (2u8, 1usize)],
+            vec![vec![7, 0], vec![25, 6], vec![20], vec![19, 1, 2], vec![12, 1], vec![17, 2, 3], vec![21], vec![25, 6], vec![25, 4], vec![12, 3], vec![25, 4]],
+        );
+        let t1 = (vec![(2u8, 1usize)], vec![vec![12, 0], vec![25, 2]]);
+        for (name, steps) in [("c03_counted_from_zero_between_load_and_add", 4usize), ("c03_counted_from_zero_between_load_and_add_b", 3)] {
+            out.push((name, Prog { g0: 3, ncells: 0, nobj: 1, threads: vec![t0.clone(), t1.clone()] }, Trigger { watch: 0, site: 103, nth: 1, other: 1, steps }, 64));
+        }
+    }
     out
 }
 
